@@ -459,7 +459,9 @@ impl Engine for C06 {
                 // recorded twice: damage to one of the two leaves the key removed)
                 if r.key == 0 && matches!(r.via, Via::LibSync | Via::LibAsync) {
                     let (n0, n1) = (reffmt::parse_bucket(&before_append).len(), reffmt::parse_bucket(&after_append).len());
-                    if n1 != n0 + 1 {
+                    // (at least one more: the newline an append starts with may also complete a
+                    // CR-terminated line in front of it, which then counts too)
+                    if n1 < n0 + 1 {
                         return Err(format!(
                             "after damage {:?}, append #{i} {:?} (removal: {}): the call succeeded but the bucket holds {n1} valid records, {n0} before it",
                             c.damages, r.via, r.tomb
